@@ -135,6 +135,19 @@ func runC08(c *Ctx) error {
 			}
 		}
 	}
+	// (a3) a file declared with a type of its own, and a tree that contains the same file at the same destination, in both
+	// orders: planning refuses the list; a package that gets built from it must still register the file as declared
+	for _, ty := range []string{"config", "config|noreplace", "config|missingok", "doc", "readme"} {
+		own := wire.Content{Src: filepath.Join(tree.Root, "tree/top.txt"), Dst: "/usr/share/app/top.txt", Type: ty}
+		whole := wire.Content{Src: filepath.Join(tree.Root, "tree"), Dst: "/usr/share/app", Type: "tree"}
+		for oi, raw := range [][]wire.Content{{own, whole}, {whole, own}} {
+			s := &PkgSpec{Raw: append([]wire.Content{{Src: filepath.Join(tree.Root, "bin/tool"), Dst: "/usr/bin/plain"}}, raw...), Umask: 0o022, MTime: 1700000000,
+				Describe: map[string]any{"matrix": "typed-file-and-a-tree-that-contains-it/" + ty, "order": oi}}
+			for _, f := range Formats {
+				typingCase(c, fam, s, f)
+			}
+		}
+	}
 	// (a') the same matrix row for the types whose source is read, with a source that is a symbolic link in the build
 	// tree (LICENSE -> ../LICENSE.md is common): the rpm-only types keep their type and flag
 	for _, ty := range []string{"", "config", "config|noreplace", "doc", "licence", "license", "readme"} {
